@@ -200,10 +200,12 @@ func plan(thorough bool) []search {
 
 func main() {
 	rep = engine.NewReport("C14")
-	rep.Rule = "explicit-state BFS: every operation of the alphabet (WriteSector over coordinates x sizes, PadToFullSector, re-open; over-limit and zero-length writes as leaves) is applied to every reachable canonical state (allocation layout + length words + occupancy + file length), once from the state's shortest history and once more after reading every coordinate; every WriteSector is re-run with the clock ticking before each of its later clock readings. distinct = (state, operation, context, tick) tuples, each executed once by construction; non-trivial = transitions on a region that holds another chunk or overwrites one"
+	rep.Rule = "explicit-state BFS: every operation of the alphabet (WriteSector over coordinates x sizes, PadToFullSector, re-open; over-limit and zero-length writes as leaves) is applied to every reachable canonical state (allocation layout + length words + occupancy + file length), once from the state's shortest history and once more after reading every coordinate; every WriteSector is re-run with the clock ticking before each of its later clock readings. distinct = (state, operation, context, tick) tuples, each executed once by construction; non-trivial = transitions on a region that holds another chunk or overwrites one. Family env (env.go): every history of 1..D operations over a 17-operation alphabet (writes x clock step {next second, same second, backwards}, reads, re-open, pad, a refused write that is not a leaf), executed WITHOUT state merging in every environment of a menu (devices answering Read short / with data+EOF, callers that reuse payload buffers and returned slices or keep returned slices for a final comparison, region.Create/Open/Close on a real path); distinct = (environment, history), each judged once on its last operation by the same oracle"
 	regionx.InstallClock()
-	regionx.StartWatchdog(20*time.Second, func(variant int, hist []regionx.Op) {
-		record("watchdog", variant, hist, []regionx.Finding{{Class: "store/" + entryName(hist) + "/non-termination", Detail: "a single call ran for more than 20 s"}})
+	// 300 s, not 20 s: with the machine oversubscribed 25x (load average 400 on 16 cores) a 1-byte in-memory
+	// WriteSector was observed to stay in flight for more than 20 s of wall time - a false alarm
+	regionx.StartWatchdog(300*time.Second, func(variant int, hist []regionx.Op) {
+		record("watchdog", variant, hist, []regionx.Finding{{Class: "store/" + entryName(hist) + "/non-termination", Detail: "a single call ran for more than 300 s"}})
 		rep.Cap("aborted by the non-termination watchdog")
 		rep.Finish()
 	})
@@ -239,7 +241,29 @@ func main() {
 	var searches []map[string]any
 	var maxDepth int
 	fix := false
+	only := os.Getenv("VERIF_C14_ONLY") // development aid: "bfs", "env" or "sweep" runs one part only (the run is then marked capped)
+	if only != "" {
+		rep.Cap("VERIF_C14_ONLY=%s: only a part of the check was run", only)
+	}
+	// the two enumerated families first (about 3 s / 30 s of wall time on 16 idle cores; their deadlines
+	// are caps for oversubscribed machines), then the searches, which use what is left of the run deadline
+	envDeadline := time.Now().Add(90 * time.Second)
+	if thorough {
+		envDeadline = time.Now().Add(6 * time.Minute)
+	}
+	if only == "" || only == "env" {
+		exploreEnv(thorough, fdir, envDeadline)
+	}
+	if only == "" || only == "sweep" {
+		exploreSweep(time.Now().Add(60 * time.Second))
+	}
+	if !thorough {
+		deadline = time.Now().Add(50 * time.Second)
+	}
 	for _, s := range plan(thorough) {
+		if only != "" && only != "bfs" {
+			break
+		}
 		for _, variant := range []int{regionx.MemWriterAt, regionx.MemPlain} {
 			name := s.name + "/" + regionx.VariantNames[variant]
 			cfg := &regionx.Config{Name: name, Variant: variant, Alpha: s.alpha, MaxDepth: s.depth,
@@ -281,7 +305,7 @@ func main() {
 	rep.NonTrivial(nontriv)
 	rep.AddTraces(rep.Evaluations)
 	rep.Sample(Case{0, "mem+WriterAt", "example", []regionx.Op{{K: "W", X: 1, Z: 0, Size: 4093}, {K: "W", X: 0, Z: 1, Size: 1}, {K: "W", X: 1, Z: 0, Size: 1}, {K: "L"}, {K: "W", X: 0, Z: 1, Size: 8189}}, "grow/shrink/reopen/reuse"})
-	rep.Assume("chunk contents and timestamp values are not part of the state key (no branch of mca.go depends on them; both are checked on every transition); device position is not part of the key because every operation seeks absolutely first (asserted at run time); ref/refanvil is trusted and pinned to 678 vanilla-written chunks by its self-test; zero-length writes and what PadToFullSector must achieve are unspecified")
+	rep.Assume("chunk contents and timestamp values are not part of the state key (no branch of mca.go depends on them; both are checked on every transition); device position is not part of the key because every operation seeks absolutely first (asserted at run time); ref/refanvil is trusted and pinned to 678 vanilla-written chunks by its self-test; zero-length writes and what PadToFullSector must achieve are unspecified; env family: a slice returned by ReadSector belongs to the caller (it must still hold the chunk's bytes after later calls), a payload buffer belongs to the caller again as soon as WriteSector returns, the clock may stand still or step back between calls, Close errors are unspecified")
 	os.RemoveAll(fdir)
 	if ownWork {
 		os.RemoveAll(work)
@@ -351,6 +375,14 @@ func replay() {
 	rp, err := engine.LoadReplay(rep.ReplayPath)
 	if err != nil {
 		engine.HarnessError("cannot load replay: %v", err)
+	}
+	var probe struct {
+		Kind string `json:"kind"`
+	}
+	if json.Unmarshal(rp.Case, &probe); probe.Kind == "env" {
+		replayEnv(rp.Case)
+		rep.Finish()
+		return
 	}
 	var c Case
 	if err := json.Unmarshal(rp.Case, &c); err != nil || len(c.History) == 0 {
